@@ -245,6 +245,54 @@ func init() {
 		}
 		return errReply(errs)
 	}
+	// erules <scenario> <rule name> <doc name|-> <hex schema> <hex doc>: changes the global rule set through
+	// the public registry API, validates with the default set, rebuilds the registry with AddRule.
+	//   replace      ReplaceRule(name, same function)          errors of that rule must still name it
+	//   replace-new  ReplaceRule("ZZNew", function of name)     = AddRule
+	//   add          AddRule("ZZAdded", function of name)
+	//   remove       RemoveRule(name)                           no error may name it
+	Ops["erules"] = func(a []string) string {
+		if len(a) != 5 {
+			return "bad-args"
+		}
+		r, ok := RuleByName[a[1]]
+		if !ok {
+			return "UNKNOWN-RULE"
+		}
+		sb, _ := UnhexW(a[3])
+		c := loadCached(string(sb))
+		if c.err != nil {
+			return "LOADERR"
+		}
+		doc, err := parser.ParseQuery(srcNamed(a[2], a[4]))
+		if err != nil {
+			return "PARSEERR"
+		}
+		defer func() {
+			for _, n := range DefaultRuleNames {
+				validator.RemoveRule(n)
+			}
+			for _, n := range []string{"ZZNew", "ZZAdded", ""} {
+				validator.RemoveRule(n)
+			}
+			for _, n := range DefaultRuleNames {
+				validator.AddRule(n, RuleByName[n].RuleFunc)
+			}
+		}()
+		switch a[0] {
+		case "replace":
+			validator.ReplaceRule(a[1], r.RuleFunc)
+		case "replace-new":
+			validator.ReplaceRule("ZZNew", r.RuleFunc)
+		case "add":
+			validator.AddRule("ZZAdded", r.RuleFunc)
+		case "remove":
+			validator.RemoveRule(a[1])
+		default:
+			return "bad-scenario"
+		}
+		return errReply(validator.Validate(c.s, doc))
+	}
 	Ops["evars"] = func(a []string) string {
 		if len(a) < 4 {
 			return "bad-args"
